@@ -67,6 +67,7 @@ func (g *Global) verifyFunc(key string) (res *FuncResult) {
 	rets := tr.execBody(fr, st)
 	for _, r := range rets {
 		tr.curPos = r.pos
+		tr.sc.curBlock = r.blk
 		penv := &CEnv{vars: map[string]EV{}, st: r.st, old: tr.oldState, pkg: env.pkg}
 		for k, v := range env.vars {
 			penv.vars[k] = v
